@@ -250,7 +250,10 @@ def build_evidence(prop, tier, seed, outcomes, kout, mutant_results, violations,
             info = o.asm.info
             for fn in info['functions']:
                 if fn['contracted']:
-                    fns.append('%s (%s) [unit %s]' % (fn['name'], fn['file'], o.name))
+                    if fn.get('slice'):
+                        fns.append('slice of %s: statements extracted as `%s` (%s) [unit %s]' % (fn['name'], fn.get('emitted_as'), fn['file'], o.name))
+                    else:
+                        fns.append('%s (%s) [unit %s]' % (fn['name'], fn['file'], o.name))
             for c in info['clauses']:
                 clauses_total += 1
                 if c['tag'].startswith('P ') and (prop in (c['tag'].split() + [''])[1].split(',')):
